@@ -409,6 +409,7 @@ LABELS = {
     "finalize": list(STYLES) + ["idle"],
     "full": list(STYLES),
     "geometry": [""],
+    "supports": list(STYLES),
 }
 
 
@@ -422,6 +423,16 @@ def generate(prop, which, label):
         return run_contract(prop, ("compute", f"{CLS}._compute_preamble"), contract_preamble(label), [(label, setup_preamble(label))], name="si_preamble")
     if which == "finalize":
         return run_contract(prop, ("compute", f"{CLS}.finalize"), contract_finalize(label), [(label, setup_finalize(label))], name="si_finalize")
+    if which == "supports":
+        from pyvc import extract
+        from pyvc.check import UnitResult
+        try:
+            fx = extract.get_slice("compute", f"{CLS}.__init__", sel_supports, "supports: _translation and _max_support from bank.supports")
+        except KeyError as e:
+            u = UnitResult("si_supports")
+            u.outside.append((f"compute:{CLS}.__init__", str(e)))
+            return u
+        return run_contract(prop, fx, contract_supports(label), [(label, setup_supports(label))], name="si_supports", fname="SI.__init__#supports")
     if which == "geometry":
         from pyvc import extract
         from pyvc.check import UnitResult
@@ -712,3 +723,50 @@ def contract_geometry():
 
 
 import ast  # noqa: E402  (sel_geometry)
+
+
+# ------------------------------------------------------------------------------------------
+# __init__, the statement that fixes translation and longest support from the bank's supports (second geometry slice):
+# establishes  tr >= 0, M >= 1, every filter's support shifted by tr lies in [0, M]  (causal)  /  tr == M // 2, M == longest support (centered)
+# Assumed of the bank (its `supports` property): at least one filter, integer pairs with left < right.
+# ------------------------------------------------------------------------------------------
+
+LEFT = z3.Function("support_left", I, I)
+RIGHT = z3.Function("support_right", I, I)
+
+
+def sel_supports(fn):
+    return [s for s in fn.body if isinstance(s, ast.If) and ast.unparse(s.test).startswith("frame_style ==") and "_max_support" in ast.unparse(s)]
+
+
+def setup_supports(style):
+    def setup(ex, st):
+        n = api.sym("num_filts")
+        j = z3.Int("sj")
+        st.assume(n >= 1)
+        st.assume(z3.ForAll([j], z3.Implies(z3.And(j >= 0, j < n), LEFT(j) < RIGHT(j)), patterns=[LEFT(j)]))
+        st.assume(z3.ForAll([j], z3.Implies(z3.And(j >= 0, j < n), LEFT(j) < RIGHT(j)), patterns=[RIGHT(j)]))
+        api.mk_obj(st, "self", CLS, {})
+        api.mk_obj(st, "bank", "Bank", {"supports": symex.SeqVal(n, lambda i: (LEFT(Z(i)), RIGHT(Z(i))))})
+        st.env["frame_style"] = style
+        ex.ctx = dict(n=n, style=style)
+    return setup
+
+
+def contract_supports(style):
+    consts = {"LEFT": SpecFn(lambda ev, j: LEFT(Z(j))), "RIGHT": SpecFn(lambda ev, j: RIGHT(Z(j))), "NF": SpecFn(lambda ev: ev.ex.ctx["n"])}
+    if style == "centered":
+        ens = [("longest_support", "forall(j, 0, NF(), RIGHT(j) - LEFT(j) <= self._max_support) and exists(j, 0, NF(), RIGHT(j) - LEFT(j) == self._max_support)"),
+               ("translation_is_half_of_it", "self._translation == self._max_support // 2"),
+               ("at_least_one_sample", "self._max_support >= 1 and self._translation >= 0")]
+        loops = {}
+    else:
+        ens = [("translation_moves_every_support_to_nonnegative_samples", "self._translation >= 0 and forall(j, 0, NF(), LEFT(j) + self._translation >= 0)"),
+               ("support_bound_covers_every_shifted_filter", "forall(j, 0, NF(), RIGHT(j) + self._translation <= self._max_support)"),
+               ("at_least_one_sample", "self._max_support >= 1")]
+        loops = {0: LoopSpec(kind="for", modifies_fields=["_translation", "_max_support"], invariant=[
+            ("range", "0 <= __zi <= NF()"),
+            ("bounds_so_far", "self._translation >= 0 and self._max_support >= 0 and forall(j, 0, __zi, LEFT(j) + self._translation >= 0 and RIGHT(j) <= self._max_support)")])}
+    c = Contract(target=f"compute:{CLS}.__init__", uses=["A-PYSEM"], consts=consts, loops=loops, ensures=ens)
+    c.canaries = [("longer_than_needed", "self._max_support >= 2")]
+    return c
